@@ -225,14 +225,10 @@ struct Packages(Vec<PackageAddress>);
 fn build(w: &mut World) {
     let mut v = vec![];
     for code in drivers() {
-        let t0 = std::time::Instant::now();
         let manifest = ManifestBuilder::new().lock_fee_from_faucet().publish_package_advanced(None, code.clone(), definition(), MetadataInit::default(), OwnerRole::None).build();
         let run = w.run(manifest, vec![]);
         assert!(run.is_success(), "publishing the C47 driver package failed: {}", run.outcome_string());
         v.push(run.commit().unwrap().new_package_addresses()[0]);
-        if std::env::var_os("VF_WASM_TIMING").is_some() {
-            eprintln!("publish of {} bytes: {} ms", code.len(), t0.elapsed().as_millis());
-        }
     }
     w.set_ext(Packages(v));
 }
@@ -622,15 +618,16 @@ fn case(g: &mut Gen) -> Outcome {
             match op {
                 Op::WriteDigest => plan.fields[F_DST] = dst_for(g, size, 32),
                 Op::WriteStale => {
+                    // (destinations away from the argument record, which is read again after the write)
                     plan.fields[F_MODE] = 1;
-                    plan.fields[F_DST] = g.below(size - 32 + 1) as u32;
-                    plan.fields[F_DST2] = g.below(size - 32 + 1) as u32;
+                    plan.fields[F_DST] = 8192 + g.below(size - 32 - 8192 + 1) as u32;
+                    plan.fields[F_DST2] = 8192 + g.below(size - 32 - 8192 + 1) as u32;
                 }
                 _ => {
                     plan.fields[F_MODE] = 2;
                     never_id = *g.pick(&[2u32, 3, 7, 1000, u32::MAX, 0x8000_0000]);
                     plan.fields[F_ID] = never_id;
-                    plan.fields[F_DST] = g.below(size - 32 + 1) as u32;
+                    plan.fields[F_DST] = 8192 + g.below(size - 32 - 8192 + 1) as u32;
                 }
             }
         }
@@ -775,11 +772,12 @@ fn case(g: &mut Gen) -> Outcome {
                             Expected::OtherFailure("no such function")
                         } else if !valid_sbor(&args) {
                             Expected::OtherFailure("arguments are not SBOR")
+                        } else if args.len() > 1000 * 1000 {
+                            // around the 1 MB invoke payload limit: a size-limit failure
+                            Expected::NotAMemoryError
                         } else if args.len() as u64 > PAGE * pages {
                             // echo consumes its argument at 0 of a fresh instance of `pages` pages
                             Expected::MemoryAccessError
-                        } else if args.len() > 1000 * 1000 {
-                            Expected::NotAMemoryError
                         } else {
                             let dst = f[F_DST];
                             if in_range(dst, args.len() as u32, size) {
